@@ -146,15 +146,36 @@ type hrEv struct {
 
 type hrCountLn struct {
 	net.Listener
-	n int64
+	n    int64
+	mu   sync.Mutex
+	hold chan struct{} // armed: the next accepted connection is handed to the server only after the channel is closed
+	held chan struct{} // closed when a connection is being held (the peer has connected, its handshake gets no answer yet)
 }
 
 func (c *hrCountLn) Accept() (net.Conn, error) {
 	conn, err := c.Listener.Accept()
 	if err == nil {
 		atomic.AddInt64(&c.n, 1)
+		c.mu.Lock()
+		hold, held := c.hold, c.held
+		c.hold, c.held = nil, nil
+		c.mu.Unlock()
+		if hold != nil {
+			close(held)
+			<-hold
+		}
 	}
 	return conn, err
+}
+
+func (c *hrCountLn) arm() (held chan struct{}, release func()) {
+	hold := make(chan struct{})
+	held = make(chan struct{})
+	c.mu.Lock()
+	c.hold, c.held = hold, held
+	c.mu.Unlock()
+	var once sync.Once
+	return held, func() { once.Do(func() { close(hold) }) }
 }
 
 type hrEcho struct{}
@@ -237,6 +258,9 @@ type hrWorld struct {
 	closeReturned  int32
 	countAtClose   int64
 	abort          int32
+	heldCh         chan struct{}
+	holding        bool
+	releaseAccept  func()
 	maxSessions    int
 	oldClosed      bool
 	monViol        [][2]string
@@ -487,6 +511,9 @@ func (w *hrWorld) srvOfLocked(id int) string {
 }
 
 func (w *hrWorld) destroy() {
+	if w.releaseAccept != nil {
+		w.releaseAccept()
+	}
 	select {
 	case <-w.trafStop:
 	default:
@@ -1019,6 +1046,9 @@ func (w *hrWorld) killEnd() {
 
 // raw scenarios carry no predictions: give ids to sessions in the order they show up in the pools
 func (w *hrWorld) registerAny() {
+	if w.holding {
+		return // a watcher sits in a held handshake with the manager lock taken
+	}
 	time.Sleep(5 * time.Millisecond)
 	var fresh []*Session
 	w.sm.RLock()
@@ -1263,6 +1293,46 @@ func (w *hrWorld) orphanOracle() string {
 		return ""
 	}
 	return fmt.Sprintf("%d sessions are open on the server side but the session manager refers to only %d open sessions: a session was established that no pool uses (and nothing will ever close)", srvOpen, cliOpen)
+}
+
+// C17 (closing the manager stops all of this): once SessionManager.Close has returned no session of a pool is open, and no
+// session is open on a server except the peers of the reserve (pre-restart) sessions, which Close leaves to the old server
+func (w *hrWorld) afterCloseOracle() string {
+	var open []string
+	var srvOpen, resOpen int
+	ok := w.waitFor(4*time.Second, func() bool {
+		open = open[:0]
+		srvOpen, resOpen = 0, 0
+		w.sm.RLock()
+		for p := 0; p < w.np; p++ {
+			if s := w.sm.pools[p].Session(); s != nil && !s.IsClosed() {
+				open = append(open, fmt.Sprintf("pool %d: %s (epoch %d)", p+1, s.name, s.epochID))
+			}
+			if rp := w.sm.reservePools[p]; rp != nil {
+				if s := rp.Session(); s != nil && !s.IsClosed() {
+					resOpen++
+				}
+			}
+		}
+		w.sm.RUnlock()
+		for _, l := range []*Listener{w.oldL, w.newL} {
+			if l == nil {
+				continue
+			}
+			l.sessions.sessionMu.Lock()
+			for s := range l.sessions.data {
+				if !s.IsClosed() {
+					srvOpen++
+				}
+			}
+			l.sessions.sessionMu.Unlock()
+		}
+		return len(open) == 0 && srvOpen <= resOpen
+	})
+	if ok {
+		return ""
+	}
+	return fmt.Sprintf("SessionManager.Close has returned but sessions of the manager are still open 4 s later: client side %v; %d open on the server side against %d open reserve sessions", open, srvOpen, resOpen)
 }
 
 func (w *hrWorld) sessCount() int {
@@ -1696,6 +1766,26 @@ func hrRunScenario(sc *hrScenario, job *hrJob) (out hrOutcome) {
 			case "WExit":
 			case "Sleep":
 				time.Sleep(time.Duration(st.I) * time.Millisecond)
+			case "HoldAccept":
+				// the server that owns the path accepts the next connection but does not answer its handshake until released
+				ln := w.oldLn
+				if w.newLn != nil {
+					ln = w.newLn
+				}
+				w.heldCh, w.releaseAccept = ln.arm()
+				w.holding = true
+			case "WaitHeld":
+				select {
+				case <-w.heldCh:
+				case <-time.After(hrWaitLimit):
+					drifted(si, "no connection arrived at the server that holds its accept")
+					return
+				}
+			case "ReleaseAccept":
+				if w.releaseAccept != nil {
+					w.releaseAccept()
+				}
+				w.holding = false
 			case "SMClose":
 				w.killBegin()
 				w.closeDone = make(chan struct{})
@@ -1797,6 +1887,15 @@ func hrRunScenario(sc *hrScenario, job *hrJob) (out hrOutcome) {
 				out.known = append(out.known, "same-epoch-round: "+detail)
 			} else {
 				w.viol(sc, &out, "orphan-session", detail)
+			}
+		}
+	}
+	if atomic.LoadInt32(&w.closeReturned) == 1 && atomic.LoadInt32(&w.abort) == 0 {
+		if detail := w.afterCloseOracle(); detail != "" {
+			if atomic.LoadInt32(&w.afterClose) == 1 && hrHas(job.Known, "hr-after-close") {
+				out.known = append(out.known, "hr-after-close: "+detail)
+			} else {
+				w.viol(sc, &out, "alive-after-close", detail)
 			}
 		}
 	}
